@@ -245,7 +245,8 @@ func WriteExtendedForgeShort(wr io.Writer, toWrite int) (err error) {
 	if high != 0 {
 		low = low | 0x8000
 	}
-	if err = WriteInt8(wr, int8(low)); err != nil {
+	// The low part is written as a 16-bit short (Velocity: buf.writeShort(low)).
+	if err = WriteUint16(wr, uint16(low)); err != nil {
 		return err
 	}
 	if high != 0 {
